@@ -28,10 +28,11 @@ type ledger struct {
 	schedules map[string]bool
 	locks     map[string]string // resource -> execution (huge ttl)
 	tasksDone map[string]bool
+	claims    map[string]string // task id -> process holding it with an hour-long lease (counter 1)
 }
 
 func newLedger() *ledger {
-	return &ledger{promises: map[string]string{}, completed: map[string]string{}, regs: map[string]string{}, schedules: map[string]bool{}, locks: map[string]string{}, tasksDone: map[string]bool{}}
+	return &ledger{promises: map[string]string{}, completed: map[string]string{}, regs: map[string]string{}, schedules: map[string]bool{}, locks: map[string]string{}, tasksDone: map[string]bool{}, claims: map[string]string{}}
 }
 
 func fpCreate(p *vh.PRow) string {
@@ -120,13 +121,21 @@ func (l *ledger) check(c *runCtx, s *vh.Snapshot, when string) {
 			c.violate("ledger:acknowledged-task-completion-missing", fmt.Sprintf("%s: completion of task %s was acknowledged, stored %v", when, id, t), nil)
 		}
 	}
+	for id, pid := range l.claims {
+		// an acknowledged claim with an hour-long lease: the task is still held by that process under that counter,
+		// unless it has been finished (by its completion or by its promise completing / timing out)
+		t := s.T[id]
+		if t == nil || !(t.State == 8 || t.State == 16 || (t.State == 4 && t.Counter == 1 && t.ProcessId != nil && *t.ProcessId == pid)) {
+			c.violate("ledger:acknowledged-claim-undone", fmt.Sprintf("%s: the claim of task %s by %s (ttl one hour) was acknowledged, stored %v", when, id, pid, t), nil)
+		}
+	}
 	for _, b := range invariants(s) {
 		i := strings.Index(b, ":")
 		j := strings.Index(b[i+1:], ":") + i + 1
 		c.violate(b[:j], when+": "+b[j+1:], nil)
 	}
 	c.rep.Hit("ledger.checks")
-	c.rep.HitN("ledger.facts-checked", len(l.promises)+len(l.completed)+len(l.regs)+len(l.schedules)+len(l.locks)+len(l.tasksDone))
+	c.rep.HitN("ledger.facts-checked", len(l.promises)+len(l.completed)+len(l.regs)+len(l.schedules)+len(l.locks)+len(l.tasksDone)+len(l.claims))
 }
 
 type c06op struct {
@@ -197,6 +206,13 @@ func c06ops(r *rand.Rand, n int, tag string) []c06op {
 			ops = append(ops, c06op{"lock " + res, func(s *Server, l *ledger) {
 				if rp := s.JSON("POST", "/locks/acquire", nil, map[string]any{"resourceId": res, "executionId": "e", "processId": "p", "ttl": 3600_000}); rp.Err == nil && rp.Status == 201 {
 					l.locks[res] = "e"
+				}
+			}})
+		case x == 13:
+			id := ids[r.Intn(len(ids))]
+			ops = append(ops, c06op{"claim and hold task of " + id, func(s *Server, l *ledger) {
+				if rp := s.JSON("POST", "/tasks/claim", nil, map[string]any{"id": "__invoke:" + id, "counter": 1, "processId": "holder", "ttl": 3600_000}); rp.Err == nil && rp.Status == 201 {
+					l.claims["__invoke:"+id] = "holder"
 				}
 			}})
 		default:
@@ -363,6 +379,9 @@ func merge(dst, src *ledger) {
 	}
 	for k, v := range src.tasksDone {
 		dst.tasksDone[k] = v
+	}
+	for k, v := range src.claims {
+		dst.claims[k] = v
 	}
 }
 
